@@ -11,6 +11,7 @@ mod locks;
 mod panics;
 mod placement;
 mod pool;
+mod sim;
 mod times;
 mod watch;
 
@@ -41,6 +42,7 @@ fn main() {
         "placement" => placement::run(&args[2], &args[3]),
         "times" => times::run(&args[2], &args[3]),
         "locks" => locks::run(&args[2], &args[3]),
+        "sim" => sim::run(&args[2], &args[3]),
         "selfcheck" => {
             // used by `check.py setup`: proves interposition is live
             events::open(&args[2]);
